@@ -117,42 +117,98 @@ func (c *Ctx) c17First() {
 			if len(loopHeaders(call.Block())) != 1 {
 				probs = append(probs, "the listener call is not in exactly one loop")
 			} else {
-				h := loopHeaders(call.Block())[0]
-				// index increases by one from -1: rangeindex; order = slice order
-				rel, ok := eng.EdgeRel(h, 0)
-				if !ok || rel.Op != token.LSS {
+				// order = slice order: the element index starts at the first element and
+				// advances by one (a range index, or i := 0; …; i++)
+				okIdx := false
+				v := call.Call.Value
+				for i := 0; i < 4; i++ {
+					switch x := v.(type) {
+					case *ssa.UnOp:
+						v = x.X
+						continue
+					case *ssa.FieldAddr:
+						v = x.X
+						continue
+					}
+					break
+				}
+				if al, ok := v.(*ssa.Alloc); ok && al.Referrers() != nil {
+					for _, ref := range *al.Referrers() {
+						if st, ok := ref.(*ssa.Store); ok && st.Addr == ssa.Value(al) {
+							if u, ok := st.Val.(*ssa.UnOp); ok {
+								v = u.X
+							}
+						}
+					}
+				}
+				if ia, ok := v.(*ssa.IndexAddr); ok {
+					idx := eng.StripConv(ia.Index)
+					// range loops index with phi+1 where phi starts at -1
+					if bo, ok := idx.(*ssa.BinOp); ok && bo.Op == token.ADD {
+						if k, isC := eng.ConstInt(bo.Y); isC && k == 1 {
+							if ph, ok := bo.X.(*ssa.Phi); ok {
+								for _, e := range ph.Edges {
+									if k0, isC := eng.ConstInt(e); isC && k0 == -1 {
+										okIdx = true
+									}
+								}
+							}
+						}
+					}
+					if ph, ok := idx.(*ssa.Phi); ok && len(ph.Edges) == 2 {
+						zero, inc := false, false
+						for _, e := range ph.Edges {
+							if k0, isC := eng.ConstInt(e); isC && k0 == 0 {
+								zero = true
+							}
+							if bo, ok := e.(*ssa.BinOp); ok && bo.Op == token.ADD && bo.X == ssa.Value(ph) {
+								if k1, isC := eng.ConstInt(bo.Y); isC && k1 == 1 {
+									inc = true
+								}
+							}
+						}
+						okIdx = zero && inc
+					}
+				}
+				if !okIdx {
 					probs = append(probs, "the loop is not a forward range over the listener slice")
 				}
 			}
-			var nnEdge *ssa.BasicBlock
-			for _, b := range fn.Blocks {
-				for k := 0; k < len(b.Succs) && len(b.Succs) == 2; k++ {
-					rel, ok := eng.EdgeRel(b, k)
-					if ok && rel.Op == token.NEQ && rel.X == ssa.Value(call) && eng.IsNilConst(rel.Y) {
-						nnEdge = b.Succs[k]
-					}
+			// path-wise: (1) when the listener call runs again, the previous result was nil;
+			// (2) every return yields the last listener result, or nil where no listener ran or
+			// the last result was nil
+			again, dropped, other := false, false, false
+			complete := eng.EnumPaths(fn, 5000, func(in ssa.Instruction, pf *eng.PathFacts) bool {
+				if in == ssa.Instruction(call) && pf.Executed(call) && pf.NilState(call) != eng.NSNil {
+					again = true
 				}
+				ret, isRet := in.(*ssa.Return)
+				if !isRet || eng.IsRecoverBlock(ret.Block()) {
+					return false
+				}
+				rv := pf.Resolve(eng.ReturnResults(ret)[0])
+				switch {
+				case rv == ssa.Value(call):
+				case eng.IsNilConst(rv):
+					if pf.Executed(call) && pf.NilState(call) != eng.NSNil {
+						dropped = true
+					}
+				default:
+					other = true
+				}
+				return true
+			})
+			if !complete {
+				probs = append(probs, "path bound exceeded")
 			}
-			if nnEdge == nil {
-				probs = append(probs, "the listener result is not tested against nil")
-			} else {
-				if eng.BlockReaches(nnEdge, func(in ssa.Instruction) bool { return in == ssa.Instruction(call) }, nil) != nil {
-					probs = append(probs, "after a non-nil result another listener can still be called: a later hook overrides the first answer")
-				}
-				eng.EachInstr(fn, func(in ssa.Instruction) {
-					ret, ok := in.(*ssa.Return)
-					if !ok || eng.IsRecoverBlock(ret.Block()) {
-						return
-					}
-					res := eng.ReturnResults(ret)
-					under := nnEdge.Dominates(ret.Block())
-					switch {
-					case under && res[0] != ssa.Value(call):
-						probs = append(probs, "on the non-nil edge Emit does not return that listener's result")
-					case !under && !eng.IsNilConst(res[0]):
-						probs = append(probs, "the fall-through does not return nil")
-					}
-				})
+			if again {
+				probs = append(probs, "after a non-nil result another listener can still be called: a later hook overrides the first answer")
+			}
+			if dropped {
+				probs = append(probs, "Emit can return nil although the last listener called answered: the listener result is not tested against nil or its answer is dropped")
+			}
+			if other {
+				probs = append(probs, "on the non-nil edge Emit does not return that listener's result")
 			}
 		}
 		if seen[key] && len(probs) == 0 {
@@ -1017,6 +1073,18 @@ func (c *Ctx) c17Isolated() {
 				}
 			}
 			return true
+		case *ssa.Extract:
+			// one result of a cloning helper that returns several (from, to = cloneEnvelope(…))
+			if call, ok := x.Tuple.(*ssa.Call); ok {
+				if rets, g := eng.ReturnedValues(call, x.Index); g != nil && len(rets) > 0 {
+					for _, rv := range rets {
+						if !fresh(rv, depth+1) {
+							return false
+						}
+					}
+					return true
+				}
+			}
 		case *ssa.Call:
 			if eng.CalleeName(x.Common()) == "builtin.append" {
 				return fresh(x.Call.Args[0], depth+1)
@@ -1048,6 +1116,36 @@ func (c *Ctx) c17Isolated() {
 			case *ssa.Store:
 				if fa, ok := x.Addr.(*ssa.FieldAddr); ok && fa.X == base && fresh(x.Val, 0) {
 					out[fa.Field] = true
+				}
+				// the whole event replaced by the result of an isolating helper
+				// (session = isolatedSMTPSession(session)): the fields that helper refreshes in
+				// the copy it returns
+				if x.Addr == base {
+					if hc, ok := x.Val.(*ssa.Call); ok {
+						if rets, g := eng.ReturnedValues(hc, 0); g != nil && eng.FuncPkgPath(g) == eng.Mod+"/"+luaRel && len(rets) > 0 {
+							var common map[int]bool
+							for _, rv := range rets {
+								got := map[int]bool{}
+								if u, ok := rv.(*ssa.UnOp); ok {
+									if gal, ok := u.X.(*ssa.Alloc); ok {
+										got = refreshed(g, gal, u, depth+1)
+									}
+								}
+								if common == nil {
+									common = got
+								} else {
+									for f := range common {
+										if !got[f] {
+											delete(common, f)
+										}
+									}
+								}
+							}
+							for f := range common {
+								out[f] = true
+							}
+						}
+					}
 				}
 			case *ssa.Call:
 				g := eng.StaticCallee(x.Common())
